@@ -96,6 +96,9 @@ type RPCCase struct {
 	// handler waits until the client has reported receiving it.
 	// HTTP transcoding: Content-Type / Accept header values sent verbatim
 	// ("-" = header absent); malformed and parameterised values included.
+	// MaxSend: the mux is built with MaxSendMessageSizeOption(MaxSend); replies
+	// above it are refused by the mux.
+	MaxSend     int    `json:"max_send,omitempty"`
 	ContentType string `json:"content_type,omitempty"`
 	Accept      string `json:"accept,omitempty"`
 	LockStep    bool   `json:"lock_step,omitempty"`
@@ -320,13 +323,20 @@ func (s *rpcSvc) lookup(ctx context.Context) *rscn {
 }
 
 func (s *rpcSvc) muxFor(target string, o Opts) (*larking.Mux, error) {
-	k := target + "|" + o.key()
+	return s.muxForLimit(target, o, 0)
+}
+
+func (s *rpcSvc) muxForLimit(target string, o Opts, maxSend int) (*larking.Mux, error) {
+	k := fmt.Sprintf("%s|%s|%d", target, o.key(), maxSend)
 	s.muxMu.Lock()
 	defer s.muxMu.Unlock()
 	if m, ok := s.muxes[k]; ok {
 		return m, nil
 	}
 	var mo []larking.MuxOption
+	if maxSend > 0 {
+		mo = append(mo, larking.MaxSendMessageSizeOption(maxSend))
+	}
 	switch o.Unary {
 	case "":
 	case "ctx":
@@ -823,6 +833,8 @@ type outcome struct {
 	GMsg  string
 	// request metadata as the handler saw it
 	HandlerMD string
+	// reply messages on the wire (gRPC, gRPC-web binary): -1 unknown
+	NMsgs int
 }
 
 func transcriptOf(c *RPCCase, r *wire.Resp) string {
@@ -849,7 +861,7 @@ func transcriptOf(c *RPCCase, r *wire.Resp) string {
 }
 
 func (s *rpcSvc) exec(c *RPCCase) (*outcome, error) {
-	mux, err := s.muxFor(c.Target, c.Opts)
+	mux, err := s.muxForLimit(c.Target, c.Opts, c.MaxSend)
 	if err != nil {
 		return nil, err
 	}
@@ -867,8 +879,15 @@ func (s *rpcSvc) exec(c *RPCCase) (*outcome, error) {
 		}
 	}
 	resp := wire.Serve(mux, req)
-	out := &outcome{Events: sc.snapshot(), Panic: resp.Panic, Wedged: resp.Wedged, Bodyless: bodyless}
+	out := &outcome{Events: sc.snapshot(), Panic: resp.Panic, Wedged: resp.Wedged, Bodyless: bodyless, NMsgs: -1}
 	if !resp.Wedged {
+		switch c.Proto {
+		case "grpc":
+			fr, _ := wire.ParseFrames(resp.Body)
+			out.NMsgs = len(fr)
+		case "web":
+			out.NMsgs = len(wire.DecodeWeb(resp.Body, false).Msgs)
+		}
 		out.Transcript = transcriptOf(c, resp)
 		// what the handler saw of the request metadata is part of the outcome
 		// (compared where the same script runs with and without options)
@@ -1029,6 +1048,22 @@ func (s *rpcSvc) check(c *RPCCase, o *outcome) (vs []viol, obs map[string]int) {
 	// a call that ended before the handler returned nil still fails (in
 	// larking's own send of the reply / status): no expectation from nil
 	lenient := c.ended() && finalErr == nil
+	overLimit := false
+	for _, n := range c.Out {
+		if c.MaxSend > 0 && n > c.MaxSend {
+			overLimit = true
+		}
+	}
+	// a unary reply above the send limit is refused by the mux after the
+	// handler (chain) returned it with a nil error
+	refusedUnary := overLimit && c.unary() && finalKnown && finalErr == nil
+	if refusedUnary {
+		lenient = true
+	}
+	if overLimit && c.proxied() && !c.unary() {
+		// the back-end's sends succeed, the forwarder's are refused
+		finalKnown = false
+	}
 	oddHeaders := c.ContentType != "" || c.Accept != ""
 	if oddHeaders && c.proxied() && !((c.unary() && uiOn) || (!c.unary() && siOn)) {
 		// the forwarder's own sends to the client may fail (no codec): the
@@ -1194,7 +1229,17 @@ func (s *rpcSvc) check(c *RPCCase, o *outcome) (vs []viol, obs map[string]int) {
 		countKnown = false
 		obs["proxy_backend_not_reached"]++
 	}
+	if refusedUnary {
+		wantOut = 0
+	}
+	if overLimit && c.proxied() && !c.unary() {
+		countKnown = false
+	}
 	gotIn, gotOut := count(st, "st", "InPayload"), count(st, "st", "OutPayload")
+	// every OutPayload event corresponds to a message the client was sent
+	if o.NMsgs >= 0 && gotOut != o.NMsgs {
+		add(fmt.Sprintf("%s:stats-outpayload-events-differ-from-messages-on-the-wire:%s", pc, shape), fmt.Sprintf("%s: %d OutPayload event(s) but the client was sent %d message(s) (trace %q)", full, gotOut, o.NMsgs, seq))
+	}
 	obs["stats_inpayload_events"] += gotIn
 	obs["stats_outpayload_events"] += gotOut
 	if countKnown && finalKnown {
@@ -1453,6 +1498,9 @@ func (g *c18run) group(base RPCCase, optsList []Opts) {
 		}
 		if len(vs) == 0 && out.Transcript == want && comparable && !endedProxied {
 			endKind := ""
+			if c.MaxSend > 0 {
+				endKind = fmt.Sprintf("/max-send=%d,out=%v", c.MaxSend, c.Out)
+			}
 			if c.ended() {
 				endKind = fmt.Sprintf("/ended(timeout=%s,wait=%v,mid=%v,pre=%v)", c.Timeout, c.WaitCtx, c.CancelMid, c.PreCancel)
 			}
@@ -1671,6 +1719,29 @@ func RunC18(r *mon.Run) {
 						c.In = nil
 					}
 					jobs = append(jobs, job{c, downOpts})
+				}
+			}
+		}
+	}
+	// a mux with a small MaxSendMessageSizeOption: replies below and above
+	// it, unary and streaming, on every front - every OutPayload event
+	// corresponds to a message the client was sent
+	limOpts := []Opts{{}, {Stats: true}, {Unary: "rec", Stream: "rec", Stats: true}}
+	for _, target := range []string{"local", "proxy"} {
+		for _, method := range methods {
+			for _, p := range []string{"grpc", "web", "webtext", "http-json", "http-proto", "http-implicit", "http-get"} {
+				if p == "http-get" && method != "Echo" && method != "SS" {
+					continue
+				}
+				for _, outs := range [][]int{{5}, {300}, {5, 5}, {5, 300, 5}, {300, 5}} {
+					if (method == "Echo" || method == "CS") != (len(outs) == 1) {
+						continue
+					}
+					in, _ := shapeIO(method, 5, 2, 0)
+					if p == "http-get" {
+						in = nil
+					}
+					jobs = append(jobs, job{RPCCase{Part: "rpc", Target: target, Proto: p, Method: method, In: in, Out: outs, MaxSend: 50}, limOpts})
 				}
 			}
 		}
